@@ -172,6 +172,13 @@ var c12Actions = []struct {
 	{"range-kind", "range fsendonlyholder.Sink }}x{{ end", true, ""},
 	{"range-kind", "range fsendonlyholder.PSink }}x{{ end", true, ""},
 	{"assign-kind", ".Age = 2", true, ""},
+	{"argument-count", `noargs(1)`, false, ""},
+	{"argument-count", `fstr | noargs`, false, ""},
+	{"argument-count", `noargs: 1, 2`, false, ""},
+	{"assign-kind", `fnilstrmap.k = 1`, true, ""},
+	{"assign-kind", `fintmap.foo = "x"`, true, ""},
+	{"argument-kind", `repeat("a", 0 - 1)`, false, ""},
+	{"argument-kind", `fstr | repeat: fneg`, false, ""},
 	{"assign-kind", `fuser.Name = "x"`, true, ""},
 	{"assign-kind", `fpuser.Age = "x"`, true, ""},
 	{"index-kind", `fikmap[fxs]`, true, ""},
@@ -270,6 +277,9 @@ func genC12(t *rapid.T) c12Case {
 	g.p.Vars["fsendonly"] = mj.Recipe{T: "chan<- int"}
 	g.p.Vars["fsendonlyptr"] = mj.Recipe{T: "*chan<- int"}
 	g.p.Vars["fnilfaces"] = mj.Recipe{T: "nil-ifaces"}
+	g.p.Vars["fnilstrmap"] = mj.Recipe{T: "nilmap"}
+	g.p.Vars["fintmap"] = mj.Recipe{T: "map[int]string", Is: []int64{1}, Ss: []string{"one"}}
+	g.p.Vars["fneg"] = mj.RInt(-3)
 	g.p.Vars["fsendonlyholder"] = mj.Recipe{T: "sendonly-holder"}
 	g.p.Vars["fpuser"] = mj.Recipe{T: "*user", S: "pu"}
 	g.p.Vars["fikmap"] = mj.Recipe{T: "map[any]int"}
